@@ -154,6 +154,17 @@ def gen_builtin(rng, nmax):
             "g": rng.choice([1.1, 1.5, 2.0]), "scale": rng.choice([None, 0.0, 0.1, 0.3, 1.0]), "level": rng.choice([0.05, 0.3])}
 
 
+def long_builtin(rng):
+    """candidate intervals long enough to hold more than 8192 admissible inner intervals"""
+    n = rng.choice([136, 150])
+    X = [[rng.choice([0, 0, 1, -1])] for _ in range(n)]
+    for a, L, lv in [(rng.randint(5, 40), rng.randint(3, 12), 5), (rng.randint(60, 110), rng.randint(2, 20), -4)]:
+        for i in range(a, min(n, a + L)):
+            X[i][0] += lv
+    return {"n": n, "m": 1, "p": 1, "X": X, "score": "l2", "mx": 400, "g": 2.0, "scale": rng.choice([0.5, 1.0]), "level": 0.05,
+            "fitmode": "same", "prior": None, "borderline": False, "container": "ndarray"}
+
+
 def _mk(kind):
     from skchange.costs import GaussianVarCost, L2Cost
 
@@ -265,6 +276,8 @@ def run(chk: core.Check):
                    site="CircularBinarySegmentation/monotone",
                    nontrivial=lambda c, r: r.get("outcome") == "ok" and len(r["lo"]) > len(r["hi"]))
     rng = core.rng_for(chk.seed, "C09/builtin")
+    chk.run_stream("long", [long_builtin(rng) for _ in range({"quick": 2, "thorough": 6}[tier])], impl_builtin, oracle=oracle_builtin,
+                   site="CircularBinarySegmentation/long", per_case_timeout=600, describe=lambda c: {k: v for k, v in c.items() if k != "X"})
     chk.run_stream("builtin", core.Gen(gen_builtin, rng, nmax + 5, N // 4), impl_builtin, oracle=oracle_builtin,
                    site="CircularBinarySegmentation/builtin",
                    nontrivial=lambda c, r: r.get("outcome") == "ok" and len(r["anoms"]) > 0,
